@@ -651,6 +651,15 @@ impl Group {
         key_tag: u16,
         cache: &SigCache,
     ) -> bool {
+        // Whether a signature is within its validity period changes as
+        // time passes. That part of the check cannot come from the cache.
+        let ts_now = Timestamp::now();
+        if ts_now.canonical_gt(&sig.data().expiration())
+            || ts_now.canonical_lt(&sig.data().inception())
+        {
+            return false;
+        }
+
         let mut signed_data = Vec::<u8>::new();
         sig.data()
             .signed_data(&mut signed_data, &mut self.rr_set())
